@@ -126,6 +126,10 @@ def correspondence(ctx):
             # the destination ends inside the literals that the hand-over sequence still has to copy out of the destination-resident part
             cap = hand[0] + rng.randrange(0, hand[1])
         lops.append(rng.choice(["dec %d %s", "dec %d %s", "bufless %d %s"]) % (max(0, cap), frames.hx(f)) if i % 4 else "decs %d %s %s %s" % (max(0, cap), frames.hx(f), rng.choice(["100000", "1000", "7,100000"]), rng.choice(["100000", "1000"])))
+    for i in range(60 if ctx.quick() else 1000):
+        # invalid frames: the first match fills the destination to a few bytes before its end, the next literal run crosses the hand-over point
+        f, cap = synth.overfull_frame(rng)
+        lops.append(rng.choice(["dec %d %s", "dec %d %s", "bufless %d %s"]) % (cap, frames.hx(f)) if i % 4 else "decs %d %s %s %s" % (cap, frames.hx(f), "100000", "100000"))
     lops += [ops[i] for i in range(0, len(ops), 25) if ops[i].split()[0] in ("dec", "decs", "bufless")]
     def lrun(idx):
         rc, out, err = frames.run_lines(lexe, [lops[i] for i in idx], timeout=900)
